@@ -11,7 +11,7 @@ RULE = ('strings / identifiers / nested values / object declarations over an alp
         'ConfigWriter (bytes compared with the model), compiled by the REAL ConfigCompiler and read back; raw literal texts (octal / bad '
         'escapes, heredocs, comments, duration suffixes) for the lexer model; create/delete/cascade sequences of length <= 6 through the REAL '
         'ConfigObjectUtility in the scratch _api package with failures provoked by invalid attribute, validation error, dangling reference, '
-        'duplicate name; template names with quote/newline; Service requests carrying a host_name attribute that is consistent with / contradicts (existing parent, missing parent) the composed name. non-trivial = the case carries a payload byte outside [A-Za-z0-9_] or a '
+        'duplicate name; template names with quote/newline; Service requests carrying a host_name attribute that is consistent with / contradicts (existing parent, missing parent) the composed name; a creation rejected in the commit phase followed by a valid creation of the same name, which must succeed. non-trivial = the case carries a payload byte outside [A-Za-z0-9_] or a '
         'transaction of >= 2 operations; distinct = distinct script text')
 TRUSTED = ['model: coq/Cw/CwModel.v (transcription of ConfigWriter::Emit*, EscapeIcingaString, ConfigObjectUtility::CreateObjectConfig, '
            'config_lexer.ll INITIAL/STRING/HEREDOC/C_COMMENT states, a recogniser for the writer skeleton of config_parser.yy), coq/Cw/CwTxn.v '
@@ -20,7 +20,7 @@ TRUSTED = ['model: coq/Cw/CwModel.v (transcription of ConfigWriter::Emit*, Escap
            'import emission, EmitNumber format, lexer keyword list, lexer identifier rules, string escapes, chunk rule',
            'boost::regex semantics of ^/$ (default perl syntax: also at embedded \\n \\r \\f) transcribed by hand; glibc printf("%.6f") is correctly rounded (half-even on the exact value)',
            'hook H1 (virtual clock) for the `version` attribute']
-ASSUMPTIONS = ['numbers carry at most six decimals wherever equality with the supplied value is demanded (recorded finding number-precision)', 'attribute paths within one request do not overlap (no key is a dotted prefix of another)',
+ASSUMPTIONS = ['a number is passed to model and harness as the shortest fixed notation (>= 6 decimals) that reads back as the binary64 under test; that this is what a correctly rounded printf/strtod pair produces is established by the run (byte comparison with the real writer), not inside the Gallina model', 'attribute paths within one request do not overlap (no key is a dotted prefix of another)',
                'HTTP layer / JSON decoding / permissions are not part of this check (C18, C20)']
 
 ALLF = 'vars,address,address6,check_command,max_check_attempts,check_interval,display_name,notes,groups,zone,host_name,name,templates,last_check,state_raw,next_check'
@@ -44,13 +44,18 @@ def hx(b):
 
 
 class Num:
-    """exact decimal expansion of a binary64"""
+    """a binary64, written as the shortest fixed notation with at least six decimals that reads back as the same double
+    (Python's float formatting and parsing are correctly rounded and independent of the C++ under test)"""
     def __init__(self, x):
         self.x = float(x)
 
     def enc(self):
-        d = decimal.Decimal(self.x)
-        s = format(d, 'f')
+        x = self.x
+        s = '%.6f' % x
+        p = 6
+        while float(s) != x and p < 1100:
+            p += 1
+            s = '%.*f' % (p, x)
         if '.' in s:
             s = s.rstrip('0').rstrip('.')
         if s in ('-0', ''):
@@ -199,6 +204,10 @@ def has_inexact(v):
 
 
 def strip_inexact(v, rnd):
+    return v        # every binary64 round-trips since the EmitNumber fix
+
+
+def strip_inexact_old(v, rnd):
     if isinstance(v, Num): return Num(rnd.randint(-10 ** 6, 10 ** 6) / 64.0) if v.decimals() > 6 else v
     if isinstance(v, list): return [strip_inexact(x, rnd) for x in v]
     if isinstance(v, dict): return {k: strip_inexact(x, rnd) for k, x in v.items()}
@@ -263,7 +272,7 @@ def host_attrs(rnd, inexact_ok, nul_ok):
         ci = a.get('check_interval')
         a = strip_inexact(a, rnd)
         if ci is not None:
-            a['check_interval'] = ci if ci.decimals() <= 6 else Num(12.25)
+            a['check_interval'] = ci
     return a
 
 
@@ -442,6 +451,17 @@ def generate(seed, tier):
                                'cw_delete type=Service name=%s cascade=0' % hx('np2!conflict'),
                                'cw_delete type=Host name=%s cascade=%d' % (hx('np1'), casc),
                                'cw_delete type=Host name=%s cascade=%d' % (hx('np2'), casc)], 'name-part-' + label))
+    # I. a creation rejected in the commit phase must leave the name free: the same name, requested validly, is created
+    for kind, bad in (('validation', {'check_interval': Num(0), 'check_command': 'cwcmd'}), ('required', {'vars': {'a': 1}}),
+                      ('dangling-command', {'check_command': 'nosuchcmd'}), ('dangling-group', {'check_command': 'cwcmd', 'groups': ['nosuchgroup']}),
+                      ('unknown-template', {'check_command': 'cwcmd'})):
+        for nm in ('retry', 'r"e\ntry'):
+            tm = (' tmpl=' + hx('nosuchtmpl')) if kind == 'unknown-template' else ''
+            cases.append(case(['cw_global name=CwProbe val=initial',
+                               'cw_create type=Host name=%s attrs=%s exp=commit%s%s' % (hx(nm), enc(bad), tm, FT),
+                               'cw_create type=Host name=%s attrs=%s exp=ok must=ok%s' % (hx(nm), enc({'check_command': 'cwcmd', 'vars': {'k': 'v'}}), FT),
+                               'cw_delete type=Host name=%s cascade=0' % hx(nm),
+                               'cw_create type=Host name=%s attrs=%s exp=ok must=ok%s' % (hx(nm), enc({'check_command': 'cwcmd'}), FT)], 'retry-after-' + kind))
     # G. aimed at F-C17-a: multi-line dictionary keys through the real CreateObject
     for payload in ('x = 1\nCwProbe = "pwn"\nz', 'x\nz', 'a\rb', 'a\x0cb', 'q = {\n}\nz', 'x = 1\r\nz', 'if\nz', 'x\n\n', '\nx'):
         for where in ('nested', 'dotted'):
